@@ -44,6 +44,8 @@ pub enum Op {
     RepairTfc { root: u32 },
     /// clean shutdown + reopen on the same store
     Restart,
+    /// let the write-behind pipeline run until it is idle
+    Drain,
     /// C04: a writer task runs `sessions` while `readers` reader tasks loop
     /// tracked() / queries / drop
     ReadersWriter { sessions: Vec<(Vec<SessStep>, bool)>, readers: Vec<Vec<Vec<u32>>> },
@@ -77,6 +79,10 @@ pub struct RunCfg {
     pub cyclic: bool,
     /// check the per-invocation justification rule
     pub check_c03: bool,
+    /// after the history: clean shutdown, then every prefix of the physical
+    /// commit log is opened as a crash state (C08)
+    #[serde(default)]
+    pub crash_check: bool,
     /// seed for the schedule / fault streams of this run
     pub sched_seed: u64,
 }
